@@ -335,6 +335,151 @@ def cli_sequences(ctx, splans):
                                   dict(kind="cli_sequence", tool=tool, argv=argv, files=[d.hex() for _, _, _, d in files]))
     return n
 
+# ------------------------------------------------------------------------------------------------ buffer boundaries
+IOBUF = 8192            # BUFSIZ of xzdec.c / lzmadec and IO_BUFFER_SIZE of xz
+
+def _enc(ctor, args, data):
+    from harness.pydrv import lz
+    c = lz.Coder()
+    if c.init(ctor, *args) != lz.OK:
+        raise MachineryError("%s failed" % ctor)
+    r = lz.run_coder(c, data)
+    c.end()
+    if r["ret"] != lz.STREAM_END:
+        raise MachineryError("%s: encoder returned %s" % (ctor, lz.retname(r["ret"])))
+    return r["out"]
+
+def exact_file(fmt, size, rng, cache):
+    """a VALID file of exactly `size` bytes (None if impossible: .xz sizes are multiples of four) and its content.
+    Made with liblzma's encoders by searching the input length; validity and content are confirmed by harness/glue."""
+    import ctypes as C
+    from harness.pydrv import lz
+    from harness.glue import alone, lzip, xz
+    if (fmt, size) in cache:
+        return cache[(fmt, size)]
+    res = None
+    if fmt == "xz" and size % 4:
+        cache[(fmt, size)] = None
+        return None
+    for attempt in range(12):
+        pool = bytes(rng.choice(b"ACGTNacgtn-01\n  ") for _ in range(size * 3 + 256))
+        if fmt in ("lzma", "lz"):
+            want = size if fmt == "lzma" else size - 13
+            o = lz.lzma_opts(0)
+            enc = lambda L: _enc("lzma_alone_encoder", (C.byref(o),), pool[:L])
+        else:
+            want = size
+            enc = lambda L: _enc("lzma_easy_encoder", (0, lz.CHECK_CRC32), pool[:L])
+        lo, hi = 0, len(pool)
+        while lo < hi:                      # smallest L with len(enc(L)) >= want
+            mid = (lo + hi) // 2
+            if len(enc(mid)) >= want:
+                hi = mid
+            else:
+                lo = mid + 1
+        cand = None
+        for L in range(max(0, lo - 3), min(len(pool), lo + 4)):
+            f = enc(L)
+            if len(f) == want or (fmt == "xz" and len(f) <= want and want - len(f) <= 8 and (want - len(f)) % 4 == 0):
+                cand = (L, f); break
+        if cand is None:
+            continue
+        L, f = cand; data = pool[:L]
+        if fmt == "lzma":
+            g = alone.parse(f); ok = g.verdict == "ok" and g.out == data and g.trailing == 0 and not g.xz_utils_rejects
+        elif fmt == "lz":
+            f = lzip.build_member(data=data, payload=f[13:], ds_byte=18)
+            g = lzip.parse(f); ok = g.verdict == "ok" and g.output == data and g.trailing == 0
+        else:
+            f = f + bytes(want - len(f))     # Stream Padding (a multiple of four zero bytes)
+            g = xz.parse(f); ok = g.verdict == "ok" and g.output == data
+        if not ok or len(f) != size:
+            raise MachineryError("exact_file(%s, %d): glue does not confirm the file: %r" % (fmt, size, g))
+        res = (f, data); break
+    if res is None:
+        raise MachineryError("could not make a valid .%s file of exactly %d bytes" % (fmt, size))
+    cache[(fmt, size)] = res
+    return res
+
+BOUNDARY_TOOLS = {      # model tool -> [(program, argv, file format)]
+    "lzmadec": [("lzmadec", [], "lzma")],
+    "xzdec": [("xzdec", [], "xz")],
+    "xz_lzma": [("xz", ["-dc", "--format=lzma"], "lzma"), ("xz", ["-dc"], "lzma")],
+    "xz_single": [("xz", ["-dc", "--single-stream"], "lzma"), ("xz", ["-dc", "--single-stream", "-T1"], "xz")],
+    "xz_xz": [("xz", ["-dc", "-T1"], "xz"), ("xz", ["-dc"], "xz")],
+    "xz_lzip": [("xz", ["-dc", "--format=lzip"], "lz"), ("xz", ["-dc"], "lz")],
+}
+
+def boundary_clause(ctx):
+    """CliRead.tla: the read loops of xzdec/lzmadec/xz (end of input known only after a short read) give a verdict that
+    depends only on where the valid data ends, not on how the file size relates to the buffer size.  TLC checks it for
+    all sizes (and that the variant without lzmadec's probe read breaks it) and emits the cases around k * B;
+    they are replayed with real files of 8192 k + d bytes (+ one foreign byte), from a file and from a pipe."""
+    r = tlc.run("CliRead", cfg="CliRead.cfg", workers=1, timeout=300)
+    ctx.add_tlc("CliRead(B=3, n<=10)", r, exhaustive=True)
+    if r.violation or not r.ok():
+        ctx.violation("model:cli-read:%s" % r.violation, r.out[-3000:], dict(kind="tlc_counterexample"))
+    v = tlc.run("CliRead", cfg="CliReadVar_noprobe.cfg", workers=1, timeout=300)
+    ctx.tlc_runs.append(dict(name="broken model variant cli_noprobe", **v.summary()))
+    if v.violation != "VerdictIndependentOfBuffer":
+        raise MachineryError("CliRead variant without the probe read does not violate the contract: %s" % v.summary())
+    g = tlc.run("CliRead", cfg="GenCliRead.cfg", workers=1, timeout=300)
+    ctx.add_tlc("GenCliRead(B=8)", g, exhaustive=True)
+    plans = plans_from_tlc(g.out)
+    if len(plans) < 60:
+        raise MachineryError("GenCliRead printed only %d plans\n%s" % (len(plans), g.out[-1500:]))
+    plans.sort(key=lambda p: json.dumps(p, sort_keys=True))
+    cli = build.cli()
+    env = dict(os.environ); env.pop("LD_PRELOAD", None); env["LC_ALL"] = "C"
+    rng = random.Random("%s/boundary" % ctx.seed)
+    cache = {}; jobs = []
+    d = os.path.join(ctx.workdir, "boundary"); os.makedirs(d, exist_ok=True)
+    for pl in plans:
+        B = pl["B"]; k = (pl["n"] + 4) // B; dd = pl["n"] - k * B; trail = pl["n"] - pl["e"]
+        total = IOBUF * k + dd
+        for prog, argv, fmt in BOUNDARY_TOOLS[pl["tool"]]:
+            got = exact_file(fmt, total - trail, rng, cache)
+            if got is None:
+                continue
+            f, data = got
+            f = f + b"X" * trail
+            path = os.path.join(d, "%s.%d.%d" % (fmt, total, trail))
+            if not os.path.exists(path):
+                with open(path, "wb") as fh:
+                    fh.write(f)
+            for via in ("file", "pipe"):
+                jobs.append((pl, prog, argv, fmt, via, path, f, data, k, dd, trail))
+    def one(j):
+        pl, prog, argv, fmt, via, path, f, data, k, dd, trail = j
+        if via == "file":
+            p = subprocess.run([cli[prog]] + argv + [path], stdin=subprocess.DEVNULL, stdout=subprocess.PIPE, stderr=subprocess.PIPE, env=env, timeout=60)
+        else:
+            p = subprocess.run([cli[prog]] + argv, input=f, stdout=subprocess.PIPE, stderr=subprocess.PIPE, env=env, timeout=60)
+        return j, p.returncode, p.stdout, p.stderr
+    seen = set(); n = 0
+    with concurrent.futures.ThreadPoolExecutor(6) as ex_:
+        for j, rc, so, se in ex_.map(one, jobs):
+            pl, prog, argv, fmt, via, path, f, data, k, dd, trail = j
+            n += 1
+            ctx.case(key=("boundary", prog, tuple(argv), fmt, via, k, dd, trail))
+            what = None
+            if rc != pl["exit"]:
+                what = "exit:%d->%d" % (pl["exit"], rc)
+            elif rc == 0 and so != data:
+                what = "stdout"
+            if what:
+                key = "cli-boundary:%s:%s:size=%dB%+d:trail=%d:%s" % (prog, fmt, k, dd, trail, what)
+                if key not in seen:
+                    seen.add(key)
+                    ctx.violation(key, "%s %s, .%s file of %d bytes (%d x %d %+d, %d foreign byte(s) at the end) from a %s: exit %d "
+                                  "(model %d), stdout %d bytes (content %d), stderr %r" % (prog, argv, fmt, len(f), k, IOBUF, dd, trail, via,
+                                                                                       rc, pl["exit"], len(so), len(data), se[:200]),
+                                  dict(kind="cli", tool=prog, argv=argv, file=f.hex(), plan=pl, via=via))
+    ctx.sample(dict(kind="boundary_case", model=plans[len(plans) // 2], buffer=IOBUF))
+    ctx.log("buffer boundaries: %d model cases, %d files of exact sizes, %d tool runs (file and pipe)" % (len(plans), len(cache), n))
+    ctx.extra["boundary_tool_runs"] = n
+    return n
+
 # ------------------------------------------------------------------------------------------------ glue as judge
 def judge(ctx, plans):
     """harness/glue (written from the format documents) judges every serialised file: its verdict and output must
@@ -694,6 +839,7 @@ def run(ctx):
     nc = run_cli(ctx, plans)
     ctx.log("ran %d tool invocations" % nc)
     ne = encoder_clause(ctx)
+    boundary_clause(ctx)
     splans = plans_from_tlc(res["GenFormatSeq"].out)
     splans.sort(key=lambda p: json.dumps(p, sort_keys=True))
     if len(splans) < 500:
